@@ -526,7 +526,8 @@ def worker(args):
     import sysjet
     nsys = 1 if tier == "quick" else 6
     for _ in range(nsys):
-        sysjet.c10_scenario(rep, binary, os.path.join(tmpdir, f"sys{shard}"), rng)
+        # over-long frames go over the wire when the library accepts the 14-byte carriers of short replies
+        sysjet.c10_scenario(rep, binary, os.path.join(tmpdir, f"sys{shard}"), rng, overlong=sum(1 for f in dec[8:] if len(f) == 28) >= 3)
     rep.extra["system_scenarios"] = nsys
     rep.exhaustive = False
     return rep.to_dict()
